@@ -60,7 +60,9 @@ def queries(cs, cls):
         Q.append(("get_face_area()", lambda s, args: s.get_face_area(), lambda s: ()))
         Q.append(("get_face_area([0,1])", lambda s, args: s.get_face_area(args[0]), lambda s: ([0, 1],)))
     if "get_dihedral" in methods:
-        Q.append(("get_dihedral", lambda s, args: s.get_dihedral(0, int(s.neighbors[0][0])), lambda s: ()))
+        # compared through the cosine (NaN = flat): arccos turns last-digit changes of the normals of coplanar
+        # neighbours into 1e-8 or NaN, and the statement allows last-digit rounding for move-and-move-back operations
+        Q.append(("get_dihedral", lambda s, args: float(np.nan_to_num(np.cos(s.get_dihedral(0, int(s.neighbors[0][0]))), nan=-1.0)), lambda s: ()))
     if "to_json" in methods:
         Q.append(("to_json", lambda s, args: s.to_json(["centroid"] + (["vertices"] if hasattr(s, "vertices") else [])), lambda s: ()))
     if "to_hoomd" in methods:
